@@ -351,6 +351,28 @@ def lifecycle(ctx):
     appcheck.evaluate(ctx, "C16", scs, cls_of=lambda sc: "lifecycle", extra_check=extra)
 
 
+def run_rerun_settings(ctx):
+    """one object, several run_forever calls with DIFFERENT keepalive settings: in a run that sends no ping (no interval) no
+    ping/pong timeout can be reported, whatever an earlier run left unanswered; a later run is a first run with its settings."""
+    from props import c14
+
+    def extra(ctx_, sc, r):
+        segs = c14._run_segments(r["trace"])
+        for k, (iv, to) in enumerate(sc["kopts"]):
+            if iv == 0 and k < len(segs) and any(e.startswith("cb:on_error") and "TIMEOUT" in e for e in segs[k]):
+                ctx_.violate("no-false-positive", "never-pinged-peer-reported@rerun-with-other-settings", sc,
+                             "no ping/pong timeout in a run without ping_interval", str(segs[k])[:300], size=appcheck.size_of(sc))
+                return
+        fresh = dict(sc, runs=[sc["runs"][-1]], kopts=[sc["kopts"][-1]])
+        fsegs = c14._run_segments(appcheck.run_real_many([fresh])[0]["trace"])
+        k = len(sc["runs"]) - 1
+        if len(segs) <= k or not fsegs or segs[k] != fsegs[0]:
+            ctx_.violate("no-false-positive", "later-run-differs-from-a-first-run-with-the-same-settings", sc,
+                         str(fsegs[0] if fsegs else None)[:300], str(segs[k] if len(segs) > k else None)[:300], size=appcheck.size_of(sc))
+    appcheck.evaluate(ctx, "C16/rerun-settings", c14.rerun_settings_scenarios(ctx),
+                      cls_of=lambda sc: "rerun-settings:" + sc["tag"].split(":", 1)[1], extra_check=extra)
+
+
 def run(ctx):
     ctx.rule = ("validation grid 11 x 11 (negative, zero, None, fractional); accepted (iv, to) in {1..6}x{1..5} s with pong "
                 "latency patterns {1 tick, to-1, to, to+1, never}^2 (thorough ^3), data frames at critical instants, tie "
@@ -363,6 +385,7 @@ def run(ctx):
     run_stall(ctx)
     run_external(ctx)
     lifecycle(ctx)
+    run_rerun_settings(ctx)
 
 
 def search(ctx):
@@ -378,6 +401,8 @@ def replay(ctx, data):
         run_keepalive(sub, [sc])
     elif sc.get("kind") == "args":
         run_args(sub)
+    elif sc.get("kind") == "rerun-settings":
+        run_rerun_settings(sub)
     else:
         lifecycle(sub)
     for v in sub.violations:
